@@ -814,6 +814,9 @@ func (fr *frame) builtin(b *ssa.Builtin, call *ssa.Call, args []Value) Value {
 		}
 		et := call.Type().Underlying().(*types.Slice).Elem()
 		if s.len+len(add) <= s.cap {
+			if in.watchShared > 0 && s.arr.obj != nil && s.arr.obj.id <= in.sharedLimit {
+				in.noteSharedWrite(call.Type(), fr) // append within the capacity writes the shared backing array
+			}
 			for i, v := range add {
 				s.at(s.len + i).store(v)
 			}
@@ -831,6 +834,9 @@ func (fr *frame) builtin(b *ssa.Builtin, call *ssa.Call, args []Value) Value {
 		return ns
 	case "copy":
 		d := args[0].(Slice)
+		if in.watchShared > 0 && d.len > 0 && d.arr.obj != nil && d.arr.obj.id <= in.sharedLimit {
+			in.noteSharedWrite(call.Call.Args[0].Type(), fr)
+		}
 		n := 0
 		a1 := args[1]
 		if fd, ok := a1.(*FD); ok {
@@ -859,6 +865,9 @@ func (fr *frame) builtin(b *ssa.Builtin, call *ssa.Call, args []Value) Value {
 		return Int{uint64(n)}
 	case "delete":
 		m, _ := args[0].(*MapObj)
+		if in.watchShared > 0 && m != nil && m.id <= in.sharedLimit {
+			in.noteSharedWrite(call.Call.Args[0].Type(), fr)
+		}
 		in.mapDel(m, args[1])
 		return nil
 	case "clear":
